@@ -16,7 +16,7 @@ var c06Spec *EnumSpec
 
 var c06ViaPool = []string{"SIP/2.0/UDP 127.0.0.9:5060;branch=z9hG4bKua", "SIP/2.0/TCP up1.example.net:5070;branch=z9hG4bKb;rport=7;received=10.1.1.1",
 	"SIP/2.0/UDP 10.2.2.2;ttl=1;branch=z9hG4bKc", "SIP/2.0/TLS up3.example.net;branch=z9hG4bKd;x=%41", "SIP/2.0/UDP 10.4.4.4:1;branch=z9hG4bKe", "SIP/2.0/SCTP 10.5.5.5:5060;branch=z9hG4bKf"}
-var c06RRPool = []string{"<sip:10.8.0.1:5060;lr>", "Up <sip:up2.example.net;lr;transport=tcp>;x=1", "<sip:u@10.8.0.3:5070;lr>", "\"Q N\" <sips:10.8.0.4;lr>"}
+var c06RRPool = []string{"\"Proxy, East\" <sip:10.8.0.1:5060;lr>", "Up <sip:up2.example.net;lr;transport=tcp>;x=1", "<sip:gw,1@10.8.0.3:5070;lr>", "\"Q N\" <sips:10.8.0.4;lr>"}
 
 func layoutLines(entries []string, mode string) []string {
 	if len(entries) == 0 {
